@@ -158,8 +158,69 @@ fn check_wrong_kind(v: &Value) -> Verdict {
 }
 
 /// collections whose elements are Values (of every kind, none included): into a Value and back, every entry kept
+/// A caller's own key type: it turns into its wire name (`Into<String>`, what the map constructors are documented to use);
+/// printing it (`Display`) gives a label for people.
+#[derive(Clone, Copy, PartialEq, Eq, PartialOrd, Ord, Hash, Debug)]
+enum Column {
+    Price,
+    Quantity,
+    Total,
+}
+impl From<Column> for String {
+    fn from(c: Column) -> String {
+        match c {
+            Column::Price => "price",
+            Column::Quantity => "qty",
+            Column::Total => "total",
+        }
+        .to_string()
+    }
+}
+impl std::fmt::Display for Column {
+    fn fmt(&self, f: &mut std::fmt::Formatter<'_>) -> std::fmt::Result {
+        // (two columns share a label)
+        f.write_str(match self {
+            Column::Price => "Unit price (EUR)",
+            Column::Quantity => "Amount",
+            Column::Total => "Amount",
+        })
+    }
+}
+/// A key that prints quoted.
+#[derive(Clone, PartialEq, Eq, PartialOrd, Ord, Hash, Debug)]
+struct Quoted(String);
+impl From<Quoted> for String {
+    fn from(q: Quoted) -> String {
+        q.0
+    }
+}
+impl std::fmt::Display for Quoted {
+    fn fmt(&self, f: &mut std::fmt::Formatter<'_>) -> std::fmt::Result {
+        write!(f, "{:?}", self.0)
+    }
+}
+
 fn check_value_collections(v: &Value) -> Verdict {
     let fail = |what: &str, got: String| Err(Issue::new(format!("convert:collection:{what}"), format!("element {}: {got}", show_value(v))));
+    // maps keyed by a caller's own key type: the keys of the image are the keys turned into text by `Into<String>`
+    {
+        let by_column: BTreeMap<Column, Value> = [(Column::Price, v.clone()), (Column::Quantity, Value::Int(2)), (Column::Total, Value::None)].into_iter().collect();
+        let want: BTreeMap<String, Value> = by_column.iter().map(|(k, x)| (String::from(*k), x.clone())).collect();
+        let same = |m: &BTreeMap<String, Value>| m.len() == want.len() && want.iter().all(|(k, x)| m.get(k).map(|y| same_value(x, y, true)).unwrap_or(false));
+        match Value::from(by_column.clone()) {
+            Value::Map(m) if same(&m) => {}
+            other => return fail("From<BTreeMap<Column,Value>> (keys through Into<String>)", show_value(&other)),
+        }
+        match Value::from(by_column.into_iter().collect::<HashMap<Column, Value>>()) {
+            Value::Map(m) if same(&m) => {}
+            other => return fail("From<HashMap<Column,Value>> (keys through Into<String>)", show_value(&other)),
+        }
+        let quoted: BTreeMap<Quoted, i64> = [(Quoted("a b".into()), 1), (Quoted("".into()), 2)].into_iter().collect();
+        match Value::from(quoted) {
+            Value::Map(m) if m.len() == 2 && matches!(m.get("a b"), Some(Value::Int(1))) && matches!(m.get(""), Some(Value::Int(2))) => {}
+            other => return fail("From<BTreeMap<Quoted,i64>> (keys through Into<String>)", show_value(&other)),
+        }
+    }
     // (keys are opaque text: dots, blanks and path-like spellings stay one key)
     let entries: Vec<(String, Value)> = vec![
         ("a".into(), v.clone()),
